@@ -45,6 +45,8 @@ def _same(a, b) -> bool:
         return a == b
     if isinstance(a, bool) != isinstance(b, bool):
         return False
+    if (type(a) is float) != (type(b) is float):
+        return False  # JSON writes 2 and 2.0 differently
     try:
         return bool(a == b)
     except Exception:
